@@ -36,6 +36,7 @@ import collections
 import copy
 import json
 import math
+import pickle
 
 import numpy as np
 import tskit
@@ -338,12 +339,18 @@ def gen_scalar(rng):
     if r < 0.38:
         c = rng.choice(list(INT))
         node = {"type": rng.choice(["integer", "number"]), "binaryFormat": c}
-        if rng.random() < 0.08:
+        k = rng.random()
+        if k < 0.14:
             size, signed = INT[c]
             lo = -(1 << (8 * size - 1)) if signed else 0
             hi = (1 << (8 * size - 1)) - 1 if signed else (1 << (8 * size)) - 1
-            a, b = sorted([rng.randint(lo, hi), rng.randint(lo, hi)])
-            node["minimum"], node["maximum"] = a, b
+            if k < 0.08:
+                a, b = sorted([rng.randint(lo, hi), rng.randint(lo, hi)])
+                node["minimum"], node["maximum"] = a, b
+            else:
+                # ordinary JSON-Schema validation keywords keep working under the struct codec ("optional rules about
+                # the types and ranges of data", docs/metadata.md): a value outside the enumeration must be rejected
+                node["enum"] = sorted({rng.choice([lo, hi, 0, 1]), rng.randint(lo, hi), rng.randint(lo, hi)})
         return node
     if r < 0.52:
         return {"type": "number", "binaryFormat": rng.choice("fd")}
@@ -359,13 +366,19 @@ def gen_scalar(rng):
         n = rng.choice([0, 1, 1, 2, 3, 4, 5, 8, 10, 16, 255, 256, 300])
         if k < 0.7:
             fmt = "s" if (n == 1 and rng.random() < 0.3) else f"{n}s"
+            if rng.random() < 0.05:
+                fmt = rng.choice(["0", "00"]) + f"{n}s"  # a count with leading zeros is the same count
             node = {"type": "string", "binaryFormat": fmt}
             if rng.random() < 0.45:
                 node["nullTerminated"] = rng.random() < 0.85
         else:
             n = max(n, 1)
             fmt = "p" if (n == 1 and rng.random() < 0.3) else f"{n}p"
+            if rng.random() < 0.05:
+                fmt = "0" + f"{n}p"
             node = {"type": "string", "binaryFormat": fmt}
+        if rng.random() < 0.08:
+            node["maxLength"] = rng.choice([0, 1, 2, 3, 8])  # JSON-Schema keyword: length in characters
         if rng.random() < 0.4:
             node["stringEncoding"] = rng.choice(ENCODINGS + ["utf-16-le"] + (list(WIDE) if rng.random() < 0.5 else []))
         return node
@@ -373,6 +386,8 @@ def gen_scalar(rng):
     if rng.random() < 0.8:
         n = rng.choice([0, 1, 1, 2, 3, 5, 8])
         node["binaryFormat"] = "x" if (n == 1 and rng.random() < 0.4) else f"{n}x"
+        if rng.random() < 0.05:
+            node["binaryFormat"] = "0" + f"{n}x"
     return node
 
 
@@ -390,6 +405,11 @@ def gen_node(rng, depth, nonzero=False):
             node["length"] = rng.choice([0, 1, 2, 2, 3, 4]) if not nonzero else rng.choice([1, 2, 3])
         elif k < 0.85:
             node["arrayLengthFormat"] = rng.choice("BHILQ")
+        if "length" not in node and rng.random() < 0.12:
+            node["maxItems"] = rng.choice([0, 1, 2, 3, 5])
+            if rng.random() < 0.5:
+                node["minItems"] = rng.choice([0, 1, 2, node["maxItems"]])
+                node["minItems"] = min(node["minItems"], node["maxItems"])
         return node
     return gen_object(rng, depth - 1, nonzero=nonzero)
 
@@ -438,7 +458,7 @@ def gen_object(rng, depth, top=False, nonzero=False):
 
 
 def gen_struct_schema(rng):
-    depth = rng.choice([0, 1, 1, 2, 2, 3])
+    depth = rng.choice([0, 1, 1, 2, 2, 3] * 4 + [5])
     schema = gen_object(rng, depth, top=True)
     schema["codec"] = "struct"
     if rng.random() < 0.15:
@@ -452,9 +472,39 @@ def gen_struct_schema(rng):
                "noLengthEncodingExhaustBuffer": True, "index": len(props) + 5}
         if rng.random() < 0.3:
             arr["default"] = []
+        if rng.random() < 0.3:
+            # still "the last type in the encoded struct" when it is the last member of the last nested object
+            inner = {"type": "object", "properties": {"n": {"type": "integer", "binaryFormat": "B", "index": 0},
+                                                      "tail": dict(arr, index=1)}, "index": len(props) + 5}
+            if "default" in arr:
+                inner["default"] = {"n": 7}
+            arr = inner
         props["zzlast"] = arr
         if "required" in schema:
             schema["required"] = list(schema["required"]) + ["zzlast"]
+    r = rng.random()
+    forced = None
+    if r < 0.08:
+        # rare-trigger classes are forced in a fixed share of schemas: an array AT the capacity of a one-byte length
+        # prefix (255 elements fit, 256 must be rejected) ...
+        forced = {"type": "array", "arrayLengthFormat": "B",
+                  "items": {"type": "integer", "binaryFormat": rng.choice("bB")}}
+    elif r < 0.095:
+        # ... and a string field larger than 64 KiB (a metadata row that does not fit a 16-bit anything)
+        forced = {"type": "string", "binaryFormat": f"{rng.choice([65536, 66000, 70001])}s"}
+        if rng.random() < 0.5:
+            forced["nullTerminated"] = True
+    if forced is not None:
+        name = rng.choice(["cap", "a9", "zcap"])
+        if any("index" in sub for sub in props.values()):
+            forced["index"] = rng.choice([-7, 3, 11, 2000])
+            if not all("index" in sub for sub in props.values()):
+                forced.pop("index")
+        props[name] = forced
+        if "required" in schema:
+            schema["required"] = list(schema["required"]) + [name]
+        if "zzlast" in props and "index" in forced:
+            forced["index"] = min(forced["index"], 3)
     if rng.random() < 0.1:
         schema["title"] = "t"
     return schema
@@ -496,12 +546,18 @@ def gen_value(rng, node, boundary=0.5):
         else:
             n = rng.choice([0, 0, 1, 1, 2, 3, 5])
             small = fixed_size(node["items"])
-            if node.get("arrayLengthFormat") == "B" and small is not None and small <= 2 and rng.random() < 0.15:
+            if node.get("arrayLengthFormat") == "B" and small is not None and small <= 2 and rng.random() < 0.3 \
+                    and "maxItems" not in node:
                 n = 255
+            if "maxItems" in node:
+                n = min(n, node["maxItems"]) if rng.random() < 0.5 else node["maxItems"]
+            n = max(n, node.get("minItems", 0))
         return [gen_value(rng, node["items"], boundary) for _ in range(n)]
     if t == "null":
         return None
     n, c = parse_fmt(node["binaryFormat"])
+    if "enum" in node:
+        return rng.choice(node["enum"])
     if c in INT:
         size, signed = INT[c]
         lo = -(1 << (8 * size - 1)) if signed else 0
@@ -533,11 +589,19 @@ def gen_value(rng, node, boundary=0.5):
     if r < 0.1:
         return ""
     targets = [cap, cap, max(cap - 1, 0), cap + 1, cap + 3, cap // 2, 2 * cap + 1, 1, 2]
-    target = min(rng.choice(targets), 320)
-    s = gen_string(rng, e, target, straddle_ok=rng.random() < 0.06)
+    target = rng.choice(targets)
+    if cap > 60000:
+        # > 64 KiB field: a short random head repeated up to the target keeps generation cheap
+        head = gen_string(rng, e, rng.choice([7, 16, 33]))
+        unit = max(len(head.encode(e)), 1)
+        s = (head or "a") * (min(target, cap + 3) // unit)
+    else:
+        s = gen_string(rng, e, min(target, 320), straddle_ok=rng.random() < 0.06)
     if s and rng.random() < 0.1 and e not in WIDE:
         i = rng.randrange(len(s))
         s = s[:i] + "\0" + s[i + 1:]
+    if "maxLength" in node:
+        s = s[:node["maxLength"]]
     return s
 
 
@@ -572,6 +636,10 @@ def collect_mutations(node, v, path, out):
         elif not node.get("noLengthEncodingExhaustBuffer") and node.get("arrayLengthFormat") == "B" and v \
                 and (fixed_size(node["items"]) or 99) <= 4:
             out.append(("array-exceeds-length-prefix", path, ("grow", 256)))
+        if "maxItems" in node and v:
+            out.append(("too-many-items", path, ("grow", node["maxItems"] + 1)))
+        if node.get("minItems", 0) > 0:
+            out.append(("too-few-items", path, ("shrink", node["minItems"] - 1)))
         out.append(("wrong-type-for-array", path, ("set", {"0": 1})))
         out.append(("wrong-type-for-array", path, ("set", "ab")))
         if v:
@@ -582,6 +650,16 @@ def collect_mutations(node, v, path, out):
         out.append(("wrong-type-for-null", path, ("set", "")))
         return
     n, c = parse_fmt(node["binaryFormat"])
+    if "enum" in node and c in INT:
+        size, signed = INT[c]
+        lo = -(1 << (8 * size - 1)) if signed else 0
+        hi = (1 << (8 * size - 1)) - 1 if signed else (1 << (8 * size)) - 1
+        for cand in (node["enum"][0] + 1, node["enum"][-1] - 1, lo, hi, 0):
+            if cand not in node["enum"] and lo <= cand <= hi:
+                out.append(("not-in-enum", path, ("set", cand)))  # representable in the format, excluded by the schema
+                break
+    if "maxLength" in node:
+        out.append(("string-too-long", path, ("set", "a" * (node["maxLength"] + 1))))
     if c in INT:
         size, signed = INT[c]
         lo = -(1 << (8 * size - 1)) if signed else 0
@@ -618,6 +696,10 @@ def collect_mutations(node, v, path, out):
             out.append(("char-not-one-byte", path, ("set", "ab")))
 
 
+RARE_CLASSES = {"array-exceeds-length-prefix", "too-many-items", "too-few-items", "not-in-enum", "string-too-long",
+                "above-schema-maximum", "below-schema-minimum"}
+
+
 def apply_mutation(obj, path, op):
     obj = copy.deepcopy(obj)
     if not path and op[0] == "set":
@@ -640,6 +722,8 @@ def apply_mutation(obj, path, op):
     elif op[0] == "grow":
         while len(target) < op[1]:
             target.append(copy.deepcopy(target[0]))
+    elif op[0] == "shrink":
+        del target[op[1]:]
     return obj
 
 
@@ -770,12 +854,36 @@ def gen_json_value(rng, t, depth=2):
     return {k: gen_json_value(rng, "any", depth - 1) for k in keys}
 
 
+ANNOTATIONS = {"title": "t", "description": "déscription", "$comment": "c", "examples": [{"a": 1}], "default": {}}
+
+# property-less JSON schemas that still constrain a row: keyword -> (schema fragment, conforming objects, violating ones)
+KEYWORD_ONLY = {
+    "minProperties": ({"minProperties": 1}, [{"a": 1}, {"b": None, "c": [1]}], [{}]),
+    "patternProperties": ({"patternProperties": {"^n_": {"type": "number"}}},
+                          [{"n_a": 1.5}, {"other": "x"}, {}], [{"n_a": "x"}]),
+    "propertyNames": ({"propertyNames": {"maxLength": 3}}, [{"abc": 1}, {}, {"a": {"toolong": 1}}], [{"toolong": 1}]),
+    "anyOf": ({"anyOf": [{"required": ["a"]}, {"required": ["b"]}]}, [{"a": 1}, {"b": 2, "z": 3}], [{}, {"c": 1}]),
+    "not": ({"not": {"required": ["forbidden"]}}, [{}, {"ok": 1}], [{"forbidden": 1}]),
+    "const": ({"const": {"k": 1}}, [{"k": 1}], [{"k": 2}, {}]),
+    "enum": ({"enum": [{"k": 1}, {}]}, [{"k": 1}, {}], [{"k": 3}]),
+    "dependencies": ({"dependencies": {"a": ["b"]}}, [{"a": 1, "b": 2}, {"b": 1}, {}], [{"a": 1}]),
+    "if-then": ({"if": {"required": ["a"]}, "then": {"required": ["b"]}}, [{"a": 1, "b": 2}, {"c": 1}], [{"a": 1}]),
+    "allOf": ({"allOf": [{"required": ["a"]}]}, [{"a": None}], [{}, {"b": 1}]),
+    "oneOf": ({"oneOf": [{"required": ["a"]}, {"required": ["b"]}]}, [{"a": 1}, {"b": 1}], [{"a": 1, "b": 1}, {}]),
+}
+
+
 def gen_json_schema(rng):
+    """(schema, kind, spec): spec = None or {"good": [...], "bad": [...]} for the keyword-only kinds."""
     r = rng.random()
     if r < 0.12:
-        return {"codec": "json"}, "permissive"
+        s = {"codec": "json"}
+        # annotation keywords do not constrain anything
+        for k in rng.sample(sorted(ANNOTATIONS), rng.choice([0, 0, 1, 2, 5])):
+            s[k] = copy.deepcopy(ANNOTATIONS[k])
+        return s, "permissive", None
     s = {"codec": "json", "type": "object"}
-    if r < 0.3:
+    if r < 0.22:
         # no properties: the schema still constrains objects through other keywords
         kind = rng.choice(["required", "additionalProperties", "type-only", "maxProperties"])
         if kind == "required":
@@ -786,7 +894,18 @@ def gen_json_schema(rng):
             s["maxProperties"] = 1
         if rng.random() < 0.3:
             s["properties"] = {}
-        return s, "no-properties:" + kind
+        return s, "no-properties:" + kind, None
+    if r < 0.36:
+        kind = rng.choice(sorted(KEYWORD_ONLY))
+        frag, good, bad = copy.deepcopy(KEYWORD_ONLY[kind])
+        s.update(frag)
+        if rng.random() < 0.4:
+            del s["type"]
+        else:
+            bad = bad + [rng.choice([5, "s", [1]])]
+        if rng.random() < 0.3:
+            s["title"] = "t"
+        return s, "keyword-only:" + kind, {"good": good, "bad": [("violates-" + kind, b) for b in bad]}
     names = rng.sample(PLAIN_NAMES + ["é", "A"], rng.choice([1, 2, 3, 4]))
     props = {}
     for n in names:
@@ -798,11 +917,21 @@ def gen_json_schema(rng):
                 p["required"] = ["u"]
         if t == "array" and rng.random() < 0.5:
             p["items"] = {"type": rng.choice(["number", "string"])}
+        if t in ("number", "integer") and rng.random() < 0.25:
+            p["minimum"] = 0
+        if t == "string" and rng.random() < 0.25:
+            p["enum"] = ["", "a", "é€😀"]
         if rng.random() < 0.35:
             p["default"] = gen_json_conforming(rng, p)
         if rng.random() < 0.1:
             p["description"] = "déscription"
         props[n] = p
+    if rng.random() < 0.3:
+        # mutable default values (decoded rows must not share them with the schema)
+        if rng.random() < 0.5:
+            props["tags"] = {"type": "array", "default": rng.choice([[], [1, 2], [{"k": []}]])}
+        else:
+            props["extra"] = {"type": "object", "default": rng.choice([{}, {"u": 1}, {"u": {"v": [1]}}])}
     s["properties"] = props
     if rng.random() < 0.5:
         s["required"] = [n for n in names if rng.random() < 0.5]
@@ -810,11 +939,17 @@ def gen_json_schema(rng):
         s["additionalProperties"] = rng.random() < 0.5
     if rng.random() < 0.15:
         s["default"] = {}
-    return s, "typed"
+    if rng.random() < 0.15:
+        s["type"] = ["object", "null"]  # the meta-schema allows the union at the top level for every codec
+    return s, "typed", None
 
 
 def gen_json_conforming(rng, p):
     t = p.get("type", "any")
+    if "enum" in p:
+        return rng.choice(p["enum"])
+    if "minimum" in p:
+        return rng.choice([0, 1, 7, 2 ** 70, 12345678901234567890])
     if t == "object" and "properties" in p:
         o = {"u": rng.choice([1, 2.5, -3]), "v": rng.choice(["", "s"])}
         if "required" not in p and rng.random() < 0.5:
@@ -1020,9 +1155,12 @@ def run_struct(case, rng, ctx):
                               f"expected {jdump(exp)}; repr={s}", detail)
         good.append((obj, b, exp, b_re))
 
+    check_object_api(ctx, rng, ms, schema, pristine, good, s, detail)
+
     # ---------------- non-conforming objects
     bad_objs = []
     base_objs = [g[0] for g in good] or objs
+    draws = []
     for _ in range(rng.choice([2, 3, 4])):
         base = rng.choice(base_objs)
         cands = []
@@ -1032,7 +1170,14 @@ def run_struct(case, rng, ctx):
         # draw the class first so that rare classes are not swamped by the frequent ones
         classes = sorted({c[0] for c in cands})
         cls = rng.choice(classes)
-        cls, path, op = rng.choice([c for c in cands if c[0] == cls])
+        draws.append((base,) + rng.choice([c for c in cands if c[0] == cls]))
+    # classes that need a rare schema feature are always exercised when the schema has the feature
+    for base in base_objs[:2]:
+        cands = []
+        collect_mutations(schema, base, [], cands)
+        for cls in sorted(RARE_CLASSES & {c[0] for c in cands} - {d[1] for d in draws}):
+            draws.append((base,) + [c for c in cands if c[0] == cls][0])
+    for base, cls, path, op in draws:
         try:
             bad = apply_mutation(base, path, op)
         except Exception:
@@ -1067,6 +1212,96 @@ def run_struct(case, rng, ctx):
             ctx.violation(f"schema/invalid-wrong-exception/{cls}",
                           f"MetadataSchema({jdump(inv)}) raised {type(e).__name__}: {str(e)[:200]}; documented: "
                           f"MetadataSchemaValidationError", {"schema": json.loads(jdump(inv))})
+
+
+def scramble(o):
+    """Destructively edit a schema dict (what a caller may do with the copy handed out by .schema / .asdict())."""
+    if isinstance(o, dict):
+        for v in list(o.values()):
+            scramble(v)
+        if "binaryFormat" in o:
+            o["binaryFormat"] = "Q"
+        o.pop("default", None)
+        o.pop("index", None)
+        if isinstance(o.get("properties"), dict):
+            o["properties"]["zz_scrambled"] = {"type": "number", "binaryFormat": "d"}
+        if "required" in o:
+            o["required"] = []
+    elif isinstance(o, list):
+        for v in o:
+            scramble(v)
+
+
+def check_object_api(ctx, rng, ms, schema, pristine, good, s, detail):
+    """Alternative argument forms and object-identity questions around one accepted struct schema."""
+    # the dict handed out by .schema / .asdict() is the caller's to modify ("one possible use of this is to modify this
+    # dict and then pass it to the MetadataSchema constructor"): editing it must not reach the schema object
+    ctx.count("schema/handed-out-dict-isolated")
+    try:
+        for how in ("schema", "asdict"):
+            d = ms.schema if how == "schema" else ms.asdict()
+            scramble(d)
+            if ms.schema != pristine or ms.asdict() != pristine or repr(ms) != s:
+                ctx.violation("schema/handed-out-dict-aliased",
+                              f"editing the dict returned by MetadataSchema.{how} changed the schema object: "
+                              f"schema={jdump(ms.schema)} repr={repr(ms)} expected {s}", detail)
+                return
+        for obj, b, exp, _ in good[:2]:
+            if ms.validate_and_encode_row(obj) != b or not deep_eq(ms.decode_row(b), exp):
+                ctx.violation("schema/handed-out-dict-aliased",
+                              f"after editing the dict returned by .schema/.asdict() the schema encodes/decodes "
+                              f"{jdump(obj)} differently; schema={s}", detail)
+                return
+    except Exception as e:
+        ctx.violation("schema/handed-out-dict-aliased", f".schema/.asdict() isolation check raised {type(e).__name__}: "
+                                                        f"{str(e)[:200]}; schema={s}", detail)
+    # equality: same schema text -> equal; a schema with one more property -> not equal
+    ctx.count("schema/equality")
+    try:
+        same = tskit.MetadataSchema(copy.deepcopy(pristine))
+        other = copy.deepcopy(pristine)
+        other["properties"]["zz_eq"] = {"type": "number", "binaryFormat": "b", "default": 0}
+        other = tskit.MetadataSchema(other)
+        if not (ms == same) or (ms != same) or (ms == other) or not (ms != other):
+            ctx.violation("schema/equality", f"MetadataSchema ==/!= wrong: same->{ms == same}, one more property->"
+                                             f"{ms == other}; schema={s}", detail)
+    except Exception as e:
+        ctx.violation("schema/equality", f"MetadataSchema equality raised {type(e).__name__}: {str(e)[:200]}", detail)
+    # a dict subclass with another insertion order is the same object
+    for obj, b, exp, _ in good[:2]:
+        if isinstance(obj, dict) and obj:
+            ctx.count("struct/arg-form:OrderedDict")
+            od = collections.OrderedDict(reversed(list(obj.items())))
+            bo, eo = try_encode(ms, od)
+            if bo != b:
+                ctx.violation("struct/arg-form-differs",
+                              f"validate_and_encode_row(OrderedDict(reversed(obj.items()))) = "
+                              f"{bo.hex() if bo is not None else repr(eo)[:120]}, the dict gives {b.hex()}; "
+                              f"obj={jdump(obj)} schema={s}", detail)
+    # additionalProperties: true written into a struct schema: the docs say additional properties are disallowed under
+    # this codec ("must be set to False ... assumed by default"), so the schema may be refused (EITHER), but when it is
+    # accepted an object with an extra key must still be rejected and conforming objects keep their bytes
+    if good and rng.random() < 0.25 and isinstance(good[0][0], dict):
+        loose = copy.deepcopy(pristine)
+        nodes = [n for n, _ in walk(loose) if node_type(n) == "object"]
+        for n in nodes:
+            if n is loose or rng.random() < 0.5:
+                n["additionalProperties"] = True
+        m2, _ = construct(loose)
+        ctx.count("struct/additionalProperties-true")
+        if m2 is not None:
+            ctx.feature("additionalProperties:true-accepted")
+            obj, b = good[0][0], good[0][1]
+            b2, e2 = try_encode(m2, obj)
+            if b2 != b:
+                ctx.violation("struct/additionalProperties-true",
+                              f"with additionalProperties: true the object {jdump(obj)} encodes as "
+                              f"{b2.hex() if b2 is not None else repr(e2)[:120]} instead of {b.hex()}; schema={s}", detail)
+            b3, e3 = try_encode(m2, dict(obj, zz_extra=1))
+            if e3 is None:
+                ctx.violation("struct/nonconforming-accepted/extra-key-additionalProperties-true",
+                              f"a struct schema written with additionalProperties: true accepted (and silently dropped) "
+                              f"the extra key of {jdump(dict(obj, zz_extra=1))}; schema={jdump(loose)}", detail)
 
 
 def shuffle_keys(rng, o):
@@ -1175,6 +1410,19 @@ def check_numpy(ctx, ms, schema, good, s, detail, buffers=None):
         for i, (b, exp) in enumerate(rows):
             ctx.count("struct/numpy-view:rows")
             np_compare(arr[i], schema, exp, b, bad, f"row{i}")
+        # other buffer forms (a metadata column is an int8 numpy array; bytearray / memoryview are buffers too) and the
+        # empty column give the same rows / no rows with the same dtype
+        ctx.count("struct/numpy-view:buffer-forms")
+        for how, other in (("np.int8 array", np.frombuffer(buf, dtype=np.int8)), ("bytearray", bytearray(buf)),
+                           ("memoryview", memoryview(buf)), ("empty bytes", b"")):
+            try:
+                a2 = ms.structured_array_from_buffer(other)
+                want = buf if how != "empty bytes" else b""
+                if a2.dtype != arr.dtype or a2.tobytes() != want or len(a2) != (len(rows) if want else 0):
+                    bad.append(f"structured_array_from_buffer({how}): {len(a2)} rows dtype {a2.dtype}, from bytes "
+                               f"{len(arr)} rows dtype {arr.dtype}")
+            except Exception as e:
+                bad.append(f"structured_array_from_buffer({how}) raised {type(e).__name__}: {e}")
     if bad and not mixed:
         ctx.violation("numpy/view-differs", f"structured view differs from row-wise decoding: {bad[:3]} dtype="
                                             f"{arr.dtype} schema={s}", detail)
@@ -1226,6 +1474,203 @@ def skeleton(kind, nrows):
         tc.nodes.add_row(flags=1, time=0)
         tc.nodes.add_row(flags=1, time=0)
     return tc
+
+
+def default_acceptable(schema, codec):
+    """Byte strings that may be stored when no metadata is given ("the default metadata value for the table's schema,
+    typically {}"; None for a nullable top level on the unchanged tree: either is accepted there).  None = no claim."""
+    acceptable = set()
+    nullable = isinstance(schema.get("type"), list)
+    if codec == "struct":
+        if nullable:
+            acceptable.add(b"")
+        if not required_keys(schema):
+            for H in HYPOTHESES:
+                try:
+                    acceptable.add(enc(schema, fill(schema, {}), H))
+                except (Either, Reject):
+                    return None
+    else:
+        acceptable = {b"{}"} if not schema.get("required") else set()
+        if nullable:
+            acceptable.add(b"null")
+        if not schema.get("properties"):
+            return None  # validation of property-less JSON schemas is covered by run_json itself
+    return acceptable
+
+
+def check_table_forms(ctx, table, kind, good, n, s, equal, detail):
+    """copy() / slices / index arrays / masks / pickles of a table carry the schema and decode like the table."""
+    forms = [("copy()", lambda: table.copy()),
+             ("[0:n]", lambda: table[0:n]),
+             ("[np.arange(n)]", lambda: table[np.arange(n)]),
+             ("[bool mask]", lambda: table[np.arange(table.num_rows) < n]),
+             ("pickle round trip", lambda: pickle.loads(pickle.dumps(table))),
+             ("[list(range(n))]", lambda: table[list(range(n))]),
+             ("[::-1]", lambda: table[::-1][::-1])]
+    how, f = forms[(ctx.case["k"] // 3) % len(forms)]
+    ctx.count("table/derived-table")
+    ctx.feature("derived-table:" + how)
+    t2 = f()
+    if repr(t2.metadata_schema) != s:
+        ctx.violation("table/derived-table-schema", f"{kind}{how if how[0] == '[' else '.' + how}: metadata_schema is "
+                                                    f"{repr(t2.metadata_schema)[:200]!r}, expected {s}", detail)
+        return
+    for j in range(n):
+        if not equal(t2[j].metadata, good[j][2]):
+            ctx.violation("table/derived-table-metadata", f"{kind} {how}: row {j} metadata = {jdump(t2[j].metadata)} "
+                                                          f"expected {jdump(good[j][2])}; schema={s}", detail)
+            return
+    if not equal(table[-table.num_rows].metadata, good[0][2]) or not equal(table[np.int64(0)].metadata, good[0][2]):
+        ctx.violation("table/derived-table-metadata", f"{kind}[-num_rows] / [np.int64(0)] metadata differs from row 0",
+                      detail)
+
+
+def check_ts_rows(ctx, ts, sing, kind, good, n, s, codec, equal, detail):
+    """Rows handed out by a TreeSequence (tskit.Node, tskit.Edge ...) are row-like: assigning / appending them to a table
+    validates and encodes their decoded metadata with the table's schema."""
+    t2 = ts.tables if ctx.case["k"] % 2 else ts.dump_tables()
+    tb2 = getattr(t2, kind)
+    ctx.count("table/ts-row-assign")
+    for j in range(n):
+        if not equal(tb2[j].metadata, good[j][2]):
+            ctx.violation("ts/metadata-differs", f"ts.tables.{kind}[{j}].metadata = {jdump(tb2[j].metadata)} expected "
+                                                 f"{jdump(good[j][2])}; schema={s}", detail)
+            return
+    tb2[0] = sing(n - 1)
+    tb2.append(sing(0))
+    rows = column_rows(tb2)
+    for where, j in ((0, n - 1), (tb2.num_rows - 1, 0)):
+        got = tb2[where].metadata
+        want_b = good[j][3] if codec == "struct" else None
+        if not equal(got, good[j][2]) or (want_b is not None and rows[where] != want_b):
+            ctx.violation("table/ts-row-assign-differs",
+                          f"{kind}[{where}] <- ts.{kind[:-1]}({j}) stored {rows[where][:64].hex()} = {jdump(got)}, expected "
+                          f"{jdump(good[j][2])}; schema={s}", detail)
+            return
+
+
+def check_split_edges(ctx, ms, schema, good, bad_objs, s, codec, equal, detail):
+    """TreeSequence.split_edges / decapitate(metadata=...) validate and encode with the node table's schema."""
+    t3 = tskit.TableCollection(2)
+    t3.nodes.metadata_schema = ms
+    t3.nodes.add_row(flags=1, time=0, metadata=good[0][0])
+    t3.nodes.add_row(flags=0, time=2, metadata=good[0][0])
+    t3.edges.add_row(0, 2, 1, 0)
+    ts3 = t3.tree_sequence()
+    acceptable = default_acceptable(schema, codec)
+    for which in ("split_edges", "decapitate"):
+        f = getattr(ts3, which)
+        for obj, b, exp, *_ in good[:3]:
+            ctx.count("ts/split_edges-metadata")
+            if obj is None:
+                continue  # None means "not given"
+            ts4 = f(1, metadata=obj)
+            new = ts4.num_nodes - 1
+            stored = column_rows(ts4.tables.nodes)[new]
+            if stored != b or not equal(ts4.node(new).metadata, exp):
+                ctx.violation("ts/split_edges-metadata-differs",
+                              f"{which}(1, metadata={jdump(obj)}) stored {stored[:64].hex()} on the new node, expected "
+                              f"{b[:64].hex()}; schema={s}", detail)
+                return
+        if acceptable is not None:
+            try:
+                ts4 = f(1)
+                stored = column_rows(ts4.tables.nodes)[ts4.num_nodes - 1]
+                if stored not in acceptable:
+                    ctx.violation("ts/split_edges-default", f"{which}(1) stored {stored.hex()} on the new node, expected "
+                                                            f"one of {sorted(a.hex() for a in acceptable)}; schema={s}",
+                                  detail)
+            except Exception as e:
+                if acceptable and codec == "struct":
+                    ctx.violation("ts/split_edges-default", f"{which}(1) raised {type(e).__name__}: {str(e)[:150]} "
+                                                            f"although {{}} conforms; schema={s}", detail)
+        for cls, bad in bad_objs:
+            if bad is None:
+                continue
+            ctx.count("ts/split_edges-nonconforming-rejected")
+            try:
+                f(1, metadata=bad)
+            except Exception:
+                continue
+            ctx.violation(f"ts/split_edges-nonconforming-accepted/{cls}",
+                          f"{which}(1, metadata={jdump(bad)}) accepted a non-conforming object ({cls}); schema={s}", detail)
+            return
+
+
+def vec_same(vec, want):
+    try:
+        ref = np.array(want)
+    except (OverflowError, ValueError, TypeError):
+        return None
+    return vec.dtype == ref.dtype and vec.shape == ref.shape and all(
+        (x == y) or (x != x and y != y) for x, y in zip(vec.reshape(-1).tolist(), ref.reshape(-1).tolist()))
+
+
+def check_metadata_vector_forms(ctx, table, kind, schema, good, n, total, codec, detail):
+    """metadata_vector: list-of-names key (nested values) and default_value for absent keys."""
+    exps = [g[2] for g in good]
+    if not all(isinstance(e, dict) for e in exps) or total % n:
+        return
+    reps = total // n
+    props = schema.get("properties") or {}
+    scalar = ("integer", "number", "boolean", "string")
+    if codec == "struct":
+        for k1 in sorted(props):
+            sub = props[k1]
+            if node_type(sub) == "object":
+                inner = [k2 for k2 in sorted(sub["properties"]) if node_type(sub["properties"][k2]) in scalar]
+                if inner:
+                    key = [k1, inner[0]]
+                    want = [e[k1][inner[0]] for e in exps] * reps
+                    break
+            elif node_type(sub) in scalar:
+                key = [k1]
+                want = [e[k1] for e in exps] * reps
+                break
+        else:
+            return
+        ctx.count("table/metadata_vector:list-key")
+        ctx.feature(f"metadata_vector:list-key-depth-{len(key)}")
+        try:
+            vec = table.metadata_vector(key)
+            if vec_same(vec, want) is False:
+                ctx.violation("table/metadata_vector", f"{kind}.metadata_vector({key!r}) = {vec.tolist()[:8]} expected "
+                                                       f"{want[:8]}", detail)
+        except Exception as e:
+            if vec_same(np.zeros(0), want) is not None:
+                ctx.violation("table/metadata_vector", f"{kind}.metadata_vector({key!r}) raised {type(e).__name__}: {e}",
+                              detail)
+        return
+    # JSON codec: keys may be absent from a row
+    keys = [k for k in sorted(props) if props[k].get("type") in scalar and "default" not in props[k]]
+    if not keys:
+        return
+    k = keys[0]
+    for dv in (-1, None):
+        want = [e.get(k, dv) for e in exps] * reps
+        absent = any(k not in e for e in exps)
+        ctx.count("table/metadata_vector:default_value")
+        ctx.feature("metadata_vector:key-absent-in-some-row" if absent else "metadata_vector:key-present")
+        try:
+            vec = table.metadata_vector(k, default_value=dv)
+            if vec_same(vec, want) is False:
+                ctx.violation("table/metadata_vector", f"{kind}.metadata_vector({k!r}, default_value={dv!r}) = "
+                                                       f"{vec.tolist()[:8]} expected {want[:8]}", detail)
+        except Exception as e:
+            if vec_same(np.zeros(0), want) is not None:
+                ctx.violation("table/metadata_vector", f"{kind}.metadata_vector({k!r}, default_value={dv!r}) raised "
+                                                       f"{type(e).__name__}: {e}", detail)
+    if any(k not in e for e in exps):
+        # "The default behaviour is to raise KeyError on missing entries"
+        try:
+            table.metadata_vector(k)
+            ctx.violation("table/metadata_vector", f"{kind}.metadata_vector({k!r}) did not raise although the key is "
+                                                   f"absent from a row", detail)
+        except KeyError:
+            pass
+        except Exception:
+            pass  # (building the array may fail first: no claim)
 
 
 def check_tables(ctx, rng, ms, schema, good, bad_objs, s, detail, codec="struct", equal=deep_eq):
@@ -1421,6 +1866,7 @@ def check_tables(ctx, rng, ms, schema, good, bad_objs, s, detail, codec="struct"
                                           f"encoding of {jdump(good[j][0])} is {good[j][1].hex()}", detail)
                             return
         total = table.num_rows
+        check_table_forms(ctx, table, kind, good, n, s, equal, detail)
         # metadata_vector on a top-level scalar key: np.array over row.metadata[key]
         if codec == "struct" and schema["properties"] and all(g[2] is not None for g in good) and total == 2 * n:
             key = sorted(schema["properties"])[0]
@@ -1443,6 +1889,7 @@ def check_tables(ctx, rng, ms, schema, good, bad_objs, s, detail, codec="struct"
                     except Exception as e:
                         ctx.violation("table/metadata_vector", f"{kind}.metadata_vector({key!r}) raised "
                                                                f"{type(e).__name__}: {e}", detail)
+        check_metadata_vector_forms(ctx, table, kind, schema, good, n, total, codec, detail)
         ts = tc.tree_sequence()
         ctx.count("table/ts-accessor")
         sing = {"nodes": ts.node, "edges": ts.edge, "sites": ts.site, "mutations": ts.mutation,
@@ -1456,12 +1903,24 @@ def check_tables(ctx, rng, ms, schema, good, bad_objs, s, detail, codec="struct"
             if j < n and not equal(row.metadata, good[j][2]):
                 ctx.violation("ts/metadata-differs", f"ts.{kind}() row {j} metadata differs", detail)
         if kind == "edges":
-            # edges handed out by edge_diffs carry decoded metadata as well
-            for _, eout, ein in ts.edge_diffs():
-                for e in list(eout) + list(ein):
-                    if e.id < n and not equal(e.metadata, good[e.id][2]):
-                        ctx.violation("ts/metadata-differs", f"edge_diffs edge {e.id} metadata = {jdump(e.metadata)} "
-                                                             f"expected {jdump(good[e.id][2])}", detail)
+            # edges handed out by edge_diffs carry decoded metadata as well (both directions have their own loop)
+            for kw in ({}, {"direction": tskit.REVERSE}, {"include_terminal": True},
+                       {"include_terminal": True, "direction": tskit.REVERSE}):
+                ctx.count("ts/edge_diffs")
+                seen = 0
+                for _, eout, ein in ts.edge_diffs(**kw):
+                    for e in list(eout) + list(ein):
+                        seen += 1
+                        if e.id < n and not equal(e.metadata, good[e.id][2]):
+                            ctx.violation("ts/metadata-differs", f"edge_diffs({kw}) edge {e.id} metadata = "
+                                                                 f"{jdump(e.metadata)} expected {jdump(good[e.id][2])}",
+                                          detail)
+                if seen < n:
+                    ctx.violation("ts/metadata-differs", f"edge_diffs({kw}) handed out {seen} edges, expected >= {n}",
+                                  detail)
+        if kind == "nodes":
+            check_split_edges(ctx, ms, schema, good, bad_objs, s, codec, equal, detail)
+        check_ts_rows(ctx, ts, sing, kind, good, n, s, codec, equal, detail)
         if kind == "mutations":
             for j in range(n):
                 got = ts.site(j).mutations[0].metadata
@@ -1503,21 +1962,7 @@ def check_tables(ctx, rng, ms, schema, good, bad_objs, s, detail, codec="struct"
         # add_row() without metadata stores "the default metadata value for the table's schema, typically {}"
         # (None for a nullable top level on the unchanged tree: either is accepted there)
         ctx.count("table/add_row-default")
-        acceptable = set()
-        if codec == "struct":
-            if isinstance(schema["type"], list):
-                acceptable.add(b"")
-            if not required_keys(schema):
-                for H in HYPOTHESES:
-                    try:
-                        acceptable.add(enc(schema, fill(schema, {}), H))
-                    except (Either, Reject):
-                        acceptable = None
-                        break
-        else:
-            acceptable = {b"{}"} if not schema.get("required") else set()
-            if not schema.get("properties"):
-                acceptable = None  # validation of property-less JSON schemas is covered by run_json itself
+        acceptable = default_acceptable(schema, codec)
         if acceptable is not None:
             nrows = table.num_rows
             try:
@@ -1557,11 +2002,26 @@ def json_eq(a, b):
     return type(a) is type(b) and a == b
 
 
+def mutate_in_place(o):
+    """Edit a decoded object the way a caller might: every mutable member is changed in place."""
+    if isinstance(o, dict):
+        for v in list(o.values()):
+            mutate_in_place(v)
+        o["zz_touched"] = [1]
+    elif isinstance(o, list):
+        for v in o:
+            mutate_in_place(v)
+        o.append("zz_touched")
+
+
 def run_json(case, rng, ctx):
-    schema, kind = gen_json_schema(rng)
+    schema, kind, spec = gen_json_schema(rng)
     pristine = copy.deepcopy(schema)
     ms, err = construct(schema)
     ctx.feature("json:" + kind)
+    nullable = isinstance(schema.get("type"), list)
+    if nullable:
+        ctx.feature("json:top:object|null")
     detail = {"schema": json.loads(jdump(pristine))}
     if ms is None:
         ctx.violation("schema/valid-rejected", f"MetadataSchema rejected the JSON-codec schema {jdump(pristine)}: "
@@ -1569,15 +2029,19 @@ def run_json(case, rng, ctx):
         return
     s = repr(ms)
     props = schema.get("properties", {})
-    defaults = {k: p["default"] for k, p in props.items() if "default" in p}
-    if kind == "permissive":
+    defaults = {k: copy.deepcopy(p["default"]) for k, p in pristine.get("properties", {}).items() if "default" in p}
+    if kind == "permissive" and len(schema) == 1:
         perm = tskit.MetadataSchema.permissive_json()
         if repr(perm) != s:
             ctx.violation("json/permissive", f"permissive_json() is {repr(perm)}, expected {s}", detail)
     # conforming objects
     objs = []
     for _ in range(rng.choice([3, 4, 5])):
-        if kind == "permissive":
+        if spec is not None:
+            o = copy.deepcopy(rng.choice(spec["good"]))
+        elif nullable and rng.random() < 0.2 and None not in objs:
+            o = None
+        elif kind == "permissive":
             o = gen_json_value(rng, rng.choice(["object", "object", "any"]), 3)
         else:
             req = set(schema.get("required", []))
@@ -1615,10 +2079,33 @@ def run_json(case, rng, ctx):
                                             f"{jdump(defaults)}) obj={jdump(o)} schema={s}", detail)
             continue
         good.append((o, b, exp))
+    if schema != pristine:
+        ctx.violation("schema/input-mutated", f"MetadataSchema(...) / encoding modified the schema argument: "
+                                               f"{jdump(pristine)} -> {jdump(schema)}", detail)
+    # decoded rows are the caller's: changing one in place must not change what the next decode returns (default
+    # values with mutable members would otherwise leak from row to row through the cached schema object)
+    if any(isinstance(v, (list, dict)) for v in defaults.values()):
+        ctx.count("json/default-not-aliased")
+        try:
+            probe = tskit.MetadataSchema(copy.deepcopy(pristine))  # (a separate instance keeps a finding local)
+            want = {k: copy.deepcopy(p["default"]) for k, p in pristine["properties"].items() if "default" in p}
+            for data in (b"", b"{}"):
+                first = probe.decode_row(data)
+                mutate_in_place(first)
+                again = probe.decode_row(data)
+                if not json_eq(again, want):
+                    ctx.violation("json/default-aliased",
+                                  f"decode_row({data!r}) = {jdump(again)} after the caller modified the object returned by "
+                                  f"the previous decode_row({data!r}); schema defaults are {jdump(defaults)} -- decoded "
+                                  f"rows share the mutable default values of the schema; schema={s}", detail)
+                    break
+        except Exception as e:
+            ctx.violation("json/default-aliased", f"aliasing probe raised {type(e).__name__}: {e}", detail)
     # empty bytes are an empty object (+ defaults)
     ctx.count("json/empty-bytes")
     try:
         d = ms.decode_row(b"")
+        defaults = {k: p["default"] for k, p in pristine.get("properties", {}).items() if "default" in p}
         if not json_eq(d, dict(defaults)):
             ctx.violation("json/empty-bytes", f"decode_row(b'') = {jdump(d)} expected {jdump(defaults)} schema={s}",
                           detail)
@@ -1651,14 +2138,27 @@ def run_json(case, rng, ctx):
         bad_objs.append(("extra-key", dict(base, zz_extra=1)))
     if schema.get("maxProperties") == 1:
         bad_objs.append(("too-many-properties", {"a": 1, "b": 2}))
-    if schema.get("type") == "object":
+    if schema.get("type") in ("object", ["object", "null"]):
         bad_objs.append(("non-object-top-level", rng.choice([5, "s", [1, 2], True, 1.5])))
+    if schema.get("type") == "object":
+        bad_objs.append(("none-for-object", None))
     typed = [(k, p["type"]) for k, p in props.items() if "type" in p]
     if typed:
         k, t = rng.choice(typed)
         wrong = {"string": 5, "number": "x", "integer": 1.5, "boolean": 0, "null": 0, "array": {"a": 1},
                  "object": [1]}[t]
         bad_objs.append(("wrong-type-for-" + t, dict(base, **{k: wrong})))
+    for k, p in props.items():
+        if "minimum" in p:
+            bad_objs.append(("below-schema-minimum", dict(base, **{k: rng.choice([-1, -0.5, -2 ** 70])})))
+        if "enum" in p:
+            bad_objs.append(("not-in-enum", dict(base, **{k: "b"})))
+        if p.get("type") == "object" and "required" in p:
+            bad_objs.append(("nested-missing-required", dict(base, **{k: {"v": "s"}})))
+        if p.get("type") == "array" and "items" in p:
+            bad_objs.append(("wrong-item-type", dict(base, **{k: [{"not": "a scalar"}]})))
+    if spec is not None:
+        bad_objs.extend(copy.deepcopy(spec["bad"]))
     bad_objs.append(("not-json-encodable", dict(base, zz=rng.choice([{1, 2}, b"bytes", object])))
                     if schema.get("additionalProperties", True) is not False and schema.get("maxProperties") is None
                     else ("not-json-encodable", {1, 2}))
@@ -1669,6 +2169,8 @@ def run_json(case, rng, ctx):
         if e is None:
             mech = "json/validation-bypassed-without-properties" if not props else f"json/nonconforming-accepted/{cls}"
             ctx.violation(mech, f"validate_and_encode_row accepted {jdump(bad)} ({cls}) -> {b!r}; schema={s}", detail)
-    bad_objs = [(c, o) for c, o in bad_objs if props]  # table paths share the same validator
+    bad_objs = [(c, o) for c, o in bad_objs if props and o is not None]  # table paths share the same validator
+    if nullable:
+        good = [g for g in good if g[0] is not None]  # (add_row(metadata=None) means "not given")
     if good and all(isinstance(o, dict) for o, _, _ in good):
         check_tables(ctx, rng, ms, schema, good, bad_objs, s, detail, codec="json", equal=json_eq)
